@@ -655,8 +655,7 @@ func (r *c23Run) addCase(f c23Formats, es []Ev, valid bool, what string) {
 }
 
 // c23Segs describes two deliveries of the same stream segment by segment (Coq: list seg). ok=false when
-// the streams do not line up or a media / custom-binary group contains an empty data event (the
-// excluded defect class), in which case the streams are recorded as two plain cases instead.
+// the streams do not line up, in which case the re-delivery is recorded as a plain case instead.
 func c23Segs(a, b []Ev) (term string, ok bool) {
 	ia, ib := c23Parse(a), c23Parse(b)
 	if len(ia) != len(ib) {
@@ -676,9 +675,6 @@ func c23Segs(a, b []Ev) (term string, ok bool) {
 			continue
 		}
 		if x.grp.coqHead() != y.grp.coqHead() {
-			return "", false
-		}
-		if x.grp.kind == "hex" && (x.grp.form.hasEmptyData() || y.grp.form.hasEmptyData()) {
 			return "", false
 		}
 		segs = append(segs, cApp("SArr", x.grp.coqHead(), x.grp.form.coq(), y.grp.form.coq()))
@@ -772,7 +768,7 @@ func (r *c23Run) check(f c23Formats, es []Ev, variants int, what string) {
 		if vi != 1 && emitted < coq {
 			emitted++
 			if !r.addEquivCase(f, canon, v, true, "equiv-whole-vs-redelivered") {
-				r.addCase(f, v, true, "valid-with-hex-empty-data")
+				r.addCase(f, v, true, "valid-redelivered-unpaired")
 			}
 		}
 	}
@@ -972,6 +968,34 @@ func (r *c23Run) malformed(f c23Formats, g *EvGen) {
 	}
 }
 
+// pinned: the inputs of the two repaired findings (bf83d88: empty data event inside media / custom binary;
+// 471e180: latitude/longitude time zones truncated on the way back). They stay in every run, under the
+// keys the findings had.
+func (r *c23Run) pinned(f c23Formats) {
+	mb := Ev{K: "mb", S: "a/b"}
+	cb := Ev{K: "cbeg", A: events.ArrayTypeCustomBinary, N: 3}
+	for _, es := range [][]Ev{
+		c23Doc(mb, Ev{K: "ac", N: 1, B: false}, Ev{K: "ad", Data: []byte{}}, Ev{K: "ad", Data: []byte{0x42}}),
+		c23Doc(cb, Ev{K: "ac", N: 1, B: false}, Ev{K: "ad", Data: []byte{}}, Ev{K: "ad", Data: []byte{0x42}}),
+		c23Doc(mb, Ev{K: "ac", N: 2, B: false}, Ev{K: "ad", Data: []byte{0x35}}, Ev{K: "ad", Data: []byte{}}, Ev{K: "ad", Data: []byte{0x20}}),
+		c23Doc(cb, Ev{K: "ac", N: 2, B: false}, Ev{K: "ad", Data: []byte{0x35}}, Ev{K: "ad", Data: []byte{}}, Ev{K: "ad", Data: []byte{0x20}}),
+		c23Doc(Ev{K: "l"}, mb, Ev{K: "ac", N: 1, B: true}, Ev{K: "ad", Data: []byte{}}, Ev{K: "ad", Data: []byte{1}}, Ev{K: "ac", N: 2, B: false},
+			Ev{K: "ad", Data: []byte{}}, Ev{K: "ad", Data: []byte{}}, Ev{K: "ad", Data: []byte{2, 3}}, Ev{K: "pi", N: 1}, Ev{K: "e"}),
+	} {
+		r.check(f, es, 2, "boundary-hex-pinned")
+	}
+	for _, text := range []string{"c0\n05:25:47.386136/-67.71/138.76", "c0\n-58801-05-20/06:19:47.338/71.46/71.09",
+		"c0\n1556-02-23/01:10:19.918/8.03/-17.36", "c0\n14:19:46/-64.82/115.19", "c0\n23:19:29.03489438/73.32/-26.54", "c0\n234-11-15/22:37:16/72.60/-54.61"} {
+		ok, class, got := c23ReencodeOracle(f, []byte(text))
+		r.c.Count("pinned-latlong|"+text, true)
+		r.c.Dist(fmt.Sprintf("reencode-oracle/pinned-latlong/ok=%v", ok))
+		if !ok {
+			r.c.Fail(Replay{Kind: "reencode", Key: "C23/reencode/" + class + "/time-latlong",
+				Input: map[string]string{"text_hex": hex.EncodeToString([]byte(text)), "formats": f.String()}, Expect: text, Got: got})
+		}
+	}
+}
+
 func runC23(c *Ctx) {
 	c.Rep.Rule = "rules-valid documents from the tree generator (all array types, string-like kinds, media, custom, in every container position) " +
 		"plus boundary sets (every array type x element counts 0..3 x every two-way split of the bytes; bit arrays of every length 0..18 x every chunk boundary; " +
@@ -983,6 +1007,7 @@ func runC23(c *Ctx) {
 	r.cf.perFile = 200
 	def := c23DefaultFormats()
 
+	r.pinned(def)
 	r.boundary(def)
 	r.boundary(c23RandomFormats(c.Rng))
 
@@ -1011,9 +1036,10 @@ func runC23(c *Ctx) {
 	}
 	c.Rep.Extra["coq_case_kinds"] = "CteEncCase: model text = implementation text (and no dirty Column read when rules-valid); " +
 		"CteEquivCase: whole-array delivery vs a re-delivery, described segment by segment; Coq checks seg_okb (the pair satisfies the " +
-		"hypothesis chunk_equiv true of theorem C23_cte_text_chunk_invariant_partial, by C23_generated_pairs_are_equivalent), both texts, col_clean of both"
-	c.Rep.Extra["excluded_from_partial_theorem"] = []string{"C23/chunking/hex-array-empty-data-event (empty data event inside a media / custom-binary array)",
+		"hypothesis chunk_equiv of theorem C23_cte_text_chunk_invariant, by C23_generated_pairs_are_equivalent), both texts, col_clean of both"
+	c.Rep.Extra["not_covered_by_theorems"] = []string{
 		"decode-and-re-encode half: no Coq model of the CTE reader; evaluated on the implementation only (keys C23/reencode/...)"}
+	c.Rep.Extra["pinned_repaired_findings"] = []string{"C23/chunking/hex-array-empty-data-event (fix bf83d88)", "C23/reencode/text-differs/time-latlong (fix 471e180)"}
 	c.Rep.Extra["model_scope"] = "times are the text of compact_time.Time.String() carried by the event (WriteTime compared against it on every case); " +
 		"float array elements in the hexadecimal (default) format only; everything else concrete"
 }
